@@ -113,7 +113,10 @@ func newClientDialer(addr string, mode ClientMode, dialer *net.Dialer, logger lo
 	c.conns.Store(newClientConns())
 
 	if mode == ClientMode_AutoConnect {
+		// The connect routine starts at once and updates the connecting state under the mutex
+		c.mu.Lock()
 		c.connect()
+		c.mu.Unlock()
 	}
 	return c
 }
